@@ -68,6 +68,10 @@ def parse_reply(line, mode):
     line = line.strip()
     if line.startswith("err"):
         return ("err", line[3:].strip())
+    if mode == "O":   # object-history replies: `ok ; n n n ; n n n ...` (plain naturals)
+        if not line.startswith("ok"):
+            return ("err", "protocol:" + line[:40])
+        return ("ok", [np.array([float(t) for t in s.split()]) for s in line.split(";")[1:]])
     if not line.startswith("ok"):
         return ("err", "protocol:" + line[:40])
     secs = line.split("|")[1:]
